@@ -207,6 +207,13 @@ const (
 	NumWrapPlans
 )
 
+// Plans outside the enumerated range: the processor answers from before-instantiation, which
+// short-cuts creation (the container then only applies the after-initialization callbacks).
+const (
+	WrapInstSelf = 10 + iota // answers the component itself
+	WrapInst                 // answers a substitute
+)
+
 // Proc is a user post-processor: it observes (event log + snapshot of the node's slots at
 // before-initialization) and, if it has a plan for a node, substitutes it.
 type Proc struct {
@@ -239,7 +246,18 @@ func (p *Proc) PostProcessBeforeInstantiation(m *cd.Meta, name string) (any, err
 	if NodeOf(m.Raw) == nil {
 		return nil, nil
 	}
-	return nil, p.rt.Fault("binst:" + p.Nm + ":" + name)
+	if err := p.rt.Fault("binst:" + p.Nm + ":" + name); err != nil {
+		return nil, err
+	}
+	switch p.Plan[name] {
+	case WrapInstSelf:
+		p.rt.Event("binst:" + p.Nm + ":" + name)
+		return m.Raw, nil
+	case WrapInst:
+		p.rt.Event("binst:" + p.Nm + ":" + name)
+		return p.mk(m.Raw, name, "i", false), nil
+	}
+	return nil, nil
 }
 
 func (p *Proc) PostProcessAfterInstantiation(c any, name string) (bool, error) {
@@ -348,21 +366,22 @@ const (
 
 // GraphProg is a dependency-graph program (pure data).
 type GraphProg struct {
-	N       int     `json:"n"`
-	Edges   [][]int `json:"edges"` // Edges[i][j]: kind of the injection point of i that targets j
-	Lazy    []bool  `json:"lazy,omitempty"`
-	Wrap    []int   `json:"wrap,omitempty"`
-	Obs     int     `json:"observers,omitempty"`
-	Reg     []int   `json:"reg,omitempty"`  // registration order (default 0..n-1)
-	Base    []int   `json:"base,omitempty"` // base iteration order of the user names
-	Mode    int     `json:"mode,omitempty"`
-	Faults  bool    `json:"faults,omitempty"`
-	Kinds   string  `json:"kinds,omitempty"`
-	Choices []int   `json:"choices,omitempty"`
-	Family  string  `json:"family,omitempty"`
-	Config  bool    `json:"config,omitempty"` // bind slot V0 of every node from configuration (value tag)
-	Full    bool    `json:"full,omitempty"`   // add two loaders, two runners, a scanner and a factory post-processor (fault sites)
-	Extra   []Extra `json:"extra,omitempty"`  // additional unsatisfiable points
+	N        int     `json:"n"`
+	Edges    [][]int `json:"edges"` // Edges[i][j]: kind of the injection point of i that targets j
+	Lazy     []bool  `json:"lazy,omitempty"`
+	Wrap     []int   `json:"wrap,omitempty"`
+	Obs      int     `json:"observers,omitempty"`
+	Reg      []int   `json:"reg,omitempty"`  // registration order (default 0..n-1)
+	Base     []int   `json:"base,omitempty"` // base iteration order of the user names
+	Mode     int     `json:"mode,omitempty"`
+	Faults   bool    `json:"faults,omitempty"`
+	ErrShape int     `json:"err_shape,omitempty"`
+	Kinds    string  `json:"kinds,omitempty"`
+	Choices  []int   `json:"choices,omitempty"`
+	Family   string  `json:"family,omitempty"`
+	Config   bool    `json:"config,omitempty"` // bind slot V0 of every node from configuration (value tag)
+	Full     bool    `json:"full,omitempty"`   // add two loaders, two runners, a scanner and a factory post-processor (fault sites)
+	Extra    []Extra `json:"extra,omitempty"`  // additional unsatisfiable points
 	// OrderedProcs: the substituting processor gets Order 100 and the processor-with-dependencies
 	// Order 200 (both in the Ordered class); ProcNodeFirst makes the registries enumerate the
 	// latter before the former
@@ -581,7 +600,7 @@ func IsNilSlot(v any) bool {
 // RunGraph executes one real start of the program under the chooser and collects observations.
 func RunGraph(p *GraphProg, ch *envx.Chooser) *GraphObs {
 	core.Tick()
-	rt := &RT{Ch: ch, Faults: p.Faults, Mode: p.Mode}
+	rt := &RT{Ch: ch, Faults: p.Faults, Mode: p.Mode, ErrShape: p.ErrShape}
 	o := &GraphObs{Prog: p, RT: rt}
 	names := map[string]bool{}
 	tags, _ := p.Tags()
